@@ -215,13 +215,19 @@ def run(rep, tier, rng):
         A = algs.alg_obj(al)
         for s in range(1, (5 if quick else 8)):
             d = s * s
-            for pattern in ["pos", "neg", "mixed", "zero"] * (2 if quick else 4) + ["nonsym"] * 2:
-                if pattern == "nonsym":
+            for pattern in ["pos", "neg", "mixed", "zero"] * (2 if quick else 4) + ["nonsym"] * 2 + ["upper", "lower", "upper-diag"]:
+                if pattern in ("nonsym", "upper", "lower", "upper-diag"):
                     if s == 1:
                         continue
                     L = [[int(i == j) for j in range(s)] for i in range(s)]
                     D = [1] * s
                     V = np.array([[rng.randint(-3, 3) for _ in range(s)] for _ in range(s)])
+                    if pattern == "upper":          # strictly upper triangular: an eigenvalue routine reading one triangle sees zeros
+                        V = np.triu(np.abs(V) + 1, 1)
+                    elif pattern == "lower":
+                        V = np.tril(np.abs(V) + 1, -1)
+                    elif pattern == "upper-diag":   # positive diagonal plus an upper triangle: looks positive definite from below
+                        V = np.triu(np.abs(V) + 1, 0)
                     if (V == V.T).all():
                         V[0, 1] += 1
                 else:
@@ -242,6 +248,20 @@ def run(rep, tier, rng):
                     {"op": "sp-sq-sign", "alg": al, "v": v, "pattern": pattern, "L": L, "D": D, "obs": c.obs_json(o2),
                      "py": "preds(SemanticPointer(v, vocab=spa.Vocabulary(d, algebra=A)).sign())"},
                     ("sp-sq-sign", al, tuple(v)), nontrivial=any(v))
+                # a pointer without vocabulary keeps its algebra through sign() / abs()
+                pnv = SemanticPointer(vf, algebra=A)
+                oa = c.outcome(lambda: pnv.abs())
+                rep.case(("sp-abs-keeps-algebra", al, tuple(v)))
+                rep.count("sp-abs-keeps-algebra")
+                if oa[0] == "ok" and not (oa[1].algebra is A and oa[1].vocab is None):
+                    rep.violation(f"abs() of a vocabulary-less {al} pointer returns a pointer of algebra {type(oa[1].algebra).__name__}",
+                                  {"case": {"alg": al, "v": v},
+                                   "python": algs.PRELUDE + "from nengo_spa.semantic_pointer import SemanticPointer\n" + f"A = {algs.alg_py(al)}\n"
+                                             f"p = SemanticPointer(np.array({v}, float), algebra=A)\nassert p.abs().algebra is A, type(p.abs().algebra).__name__\n"})
+                if oa[0] == "ok":
+                    oaa = c.outcome(lambda: oa[1].abs())
+                    if oaa[0] != "ok" or not np.allclose(oaa[1].v, oa[1].v, atol=1e-9 * (1 + np.abs(oa[1].v).max())):
+                        rep.violation(f"abs() is not idempotent on a vocabulary-less {al} pointer (v={v[:9]})", {"case": {"alg": al, "v": v}})
                 o3 = c.observe(lambda: A.abs(vf))
                 add(f"check_sq_abs {al} {c.zlist(v)} {c.zmat(L)} {c.zlist(D)} {algs.tol_for(v, d=d)} {obs_t(o3, algs.enc_vec)}",
                     {"op": "sq-abs", "alg": al, "v": v, "pattern": pattern, "L": L, "D": D, "obs": c.obs_json(o3), "py": "A.abs(v)"},
